@@ -504,6 +504,8 @@ class LogicalLinkController(object):
             self.terminate(reason="encryption error")
             raise SystemExit
         finally:
+            if not self.link.SHUTDOWN:  # left by an unexpected exception
+                self.terminate(reason="run loop error")
             log.debug("llc run loop terminated on initiator")
 
     def run_as_target(self, terminate=lambda: False):
@@ -570,6 +572,8 @@ class LogicalLinkController(object):
             self.terminate(reason="encryption error")
             raise SystemExit
         finally:
+            if not self.link.SHUTDOWN:  # left by an unexpected exception
+                self.terminate(reason="run loop error")
             log.debug("llc run loop terminated on target")
 
     def collect(self, delay=None):
